@@ -391,13 +391,14 @@ def c_converter(nf, nt, reverse=False):
     h.functions = ["litex.soc.interconnect.stream.Converter.__init__", "litex.soc.interconnect.stream._get_converter_ratio"]
     return h
 
-def c_stride(down=True, with_param=False):
-    """StrideConverter with a two-field payload (field-wise lane map) and optionally a param that must travel with its token"""
-    pl_w = [("a", 8), ("b", 4)]; pl_n = [("a", 4), ("b", 2)]; par = [("p", 3)] if with_param else []
+def c_stride(down=True, with_param=False, swap=False):
+    """StrideConverter with a two-field payload (field-wise lane map) and optionally a param that must travel with its token;
+    swap: the two descriptions list the same fields in a different order (fields are matched by NAME)"""
+    pl_w = [("a", 8), ("b", 4)]; pl_n = [("a", 4), ("b", 2)] if not swap else [("b", 2), ("a", 4)]; par = [("p", 3)] if with_param else []
     EP = lambda pl: stream.EndpointDescription(pl, par)
     d = mk(stream.StrideConverter, EP(pl_w), EP(pl_n)) if down else mk(stream.StrideConverter, EP(pl_n), EP(pl_w))
     sink, source = d.sink, d.source
-    h = HwCheck(f"StrideConverter({'down' if down else 'up'},2 fields,param={with_param})", d, ep_inputs(sink, source))
+    h = HwCheck(f"StrideConverter({'down' if down else 'up'},2 fields,param={with_param}{',fields in another order' if swap else ''})", d, ep_inputs(sink, source))
     producer_holds(h, sink)
     in_fire, out_fire = fire(h, sink), fire(h, source)
     if down:
